@@ -94,7 +94,7 @@ def build_wire(rng, odd=False):
     for _ in range(sum(counts[1:])):
         owner = base if rng.chance(0.6) else rand_labels(rng, pool)
         w.name(owner)
-        t = wt(rng, [(1, 4), (28, 2), (16, 5), (13, 1), (5, 3), (2, 2), (12, 1), (15, 3), (6, 2), (33, 2), (41, 1), (99, 1),
+        t = wt(rng, [(1, 4), (28, 2), (16, 5), (13, 1), (5, 3), (2, 2), (12, 1), (15, 3), (6, 3), (14, 1), (17, 1), (33, 2), (41, 1), (99, 1),
                           (46, 2), (47, 2), (48, 1), (43, 1), (65, 1), (64, 1), (65280, 1), (rng.below(65536), 1)])
         types.append(t)
         w.raw(struct.pack("!HHI", t, rng.choice([1, 1, 1, 3, rng.below(65536)]),
@@ -115,8 +115,20 @@ def build_wire(rng, odd=False):
         elif t == 15:
             w.raw(struct.pack("!H", rng.choice([0, 10, 20, 0xC00C, 0xC000 | (rng.choice(ptrish) if ptrish else 12)])))
             w.name([rng.choice(pool)] + list(base))
-        elif t == 6:
-            w.name([b"ns1"] + list(base)); w.name([b"hostmaster"] + list(base))
+        elif t in (6, 14, 17):
+            # two names; half of the time the second one is compressed against a suffix that first occurs inside the first
+            # name of the SAME rdata (primary NS outside the zone, as BIND emits it)
+            if rng.chance(0.5):
+                outside = [rng.choice([b"dns-provider", b"nsone", b"b"]), rng.choice([b"net", b"io"])]
+                w.name([b"ns1"] + outside)
+                keep, w.compress = w.compress, (1.0 if rng.chance(0.8) else w.compress)
+                w.name([b"hostmaster"] + (outside if rng.chance(0.7) else outside[1:]))
+                w.compress = keep
+            else:
+                w.name([b"ns1"] + list(base)); w.name([b"hostmaster"] + list(base))
+            if t != 6:
+                struct.pack_into("!H", w.buf, lenpos, len(w.buf) - start)
+                continue
             w.raw(struct.pack("!IIIII", rng.choice([2024010101, 0xC00CC00C, rng.below(1 << 32)]), 7200, 3600, 1209600, rng.below(1 << 32)))
         elif t == 33:
             w.raw(struct.pack("!HHH", rng.below(65536), rng.below(65536), rng.choice([443, 53, 0xC00C])))
